@@ -167,6 +167,7 @@ func runC10(c *Ctx) {
 	ruleNoopGuard(c, "ring")
 	ruleDetachReadsOld(c)
 	ruleReverseCopy(c)
+	ruleNilRing(c)
 	ruleWrapChecked(c)
 	ruleSizeGuard(c, "stack", "mlink", "ring")
 	ruleEmptyAgreesLen(c, "stack", "Stack")
